@@ -12,12 +12,22 @@ git -C /repo worktree add --detach "$W" HEAD >/dev/null 2>&1 || { echo "cannot c
 cleanup() { git -C /repo worktree remove --force "$W" >/dev/null 2>&1; rm -rf "$W"; }
 trap cleanup EXIT
 cd "$W"
-g++ -std=c++17 -O1 -w -I include "$SRC/demo.cpp" -o "$W/demo_clean" 2> "$W/demo_clean.log" || { echo "demo does not compile on HEAD"; cat "$W/demo_clean.log" | head; exit 3; }
-"$W/demo_clean" > "$W/demo_clean.out" 2>&1; RC_CLEAN=$?
+# a demonstration that needs several files or special flags brings its own seed/build.sh (run from the worktree root; exit code = verdict)
+run_demo() {  # run_demo <tag>
+  if [ -f "$SRC/build.sh" ]; then
+    rm -rf "$W/seed"; mkdir -p "$W/seed"; cp "$SRC"/*.cpp "$SRC"/build.sh "$W/seed/" 2>/dev/null
+    ( cd "$W" && sh seed/build.sh ) > "$W/demo_$1.out" 2>&1; echo $? > "$W/demo_$1.rc"
+  else
+    g++ -std=c++17 -O1 -w -I include "$SRC/demo.cpp" -o "$W/demo_$1" 2> "$W/demo_$1.log" || { echo "demo does not compile ($1)"; head "$W/demo_$1.log"; echo 99 > "$W/demo_$1.rc"; return; }
+    "$W/demo_$1" > "$W/demo_$1.out" 2>&1; echo $? > "$W/demo_$1.rc"
+  fi
+}
+run_demo clean; RC_CLEAN=$(cat "$W/demo_clean.rc")
+[ "$RC_CLEAN" = 99 ] && exit 3
 git apply "$SRC/patch.diff" || { echo "patch does not apply"; exit 3; }
 FILES=$(git diff --name-only | tr '\n' ' ')
-g++ -std=c++17 -O1 -w -I include "$SRC/demo.cpp" -o "$W/demo_patched" 2> "$W/demo_patched.log" || { echo "demo does not compile with the patch"; head "$W/demo_patched.log"; exit 3; }
-"$W/demo_patched" > "$W/demo_patched.out" 2>&1; RC_PATCHED=$?
+run_demo patched; RC_PATCHED=$(cat "$W/demo_patched.rc")
+rm -rf "$W/seed"
 SUITE="skipped"
 if [ "$SKIP" != "--skip-suite" ]; then
   cmake -G Ninja -S . -B _build -DPHYSICAL_QUANTITIES_PHQ_TEST=ON -DCMAKE_BUILD_TYPE=RelWithDebInfo -DCMAKE_CXX_FLAGS=-Wno-error > /dev/null 2>&1
@@ -42,7 +52,7 @@ fi
 echo "seed $ID ($PROP): demo on HEAD exit $RC_CLEAN, with patch exit $RC_PATCHED, suite with patch: $SUITE, files: $FILES"
 OK=0; [ "$RC_CLEAN" = 0 ] && [ "$RC_PATCHED" != 0 ] && case "$SUITE" in passed*|skipped) OK=1;; esac
 if [ "$OK" = 1 ]; then
-  mkdir -p "$V/seeded/$ID"; cp "$SRC/patch.diff" "$SRC/demo.cpp" "$V/seeded/$ID/"; [ -f "$SRC/notes.md" ] && cp "$SRC/notes.md" "$V/seeded/$ID/"
+  mkdir -p "$V/seeded/$ID"; cp "$SRC/patch.diff" "$SRC"/*.cpp "$V/seeded/$ID/"; [ -f "$SRC/notes.md" ] && cp "$SRC/notes.md" "$V/seeded/$ID/"; [ -f "$SRC/build.sh" ] && cp "$SRC/build.sh" "$V/seeded/$ID/"
   python3 - "$V/seeded/$ID/meta.json" "$ID" "$PROP" "$FILES" "$RC_CLEAN" "$RC_PATCHED" "$SUITE" "$(head -c 600 "$W/demo_patched.out")" <<'PY'
 import json, sys
 p, sid, prop, files, rc0, rc1, suite, out = sys.argv[1:9]
